@@ -144,7 +144,9 @@ static inline int64_t gen_index_sel(Rng &r)
     if (r.chance(1, 2)) return 0;
     return (int64_t)r.below(9);
 }
-static const size_t ELEM_SIZES[] = {0, 1, 2, 3, 4, 7, 8, 16, 24, 40};
+static const size_t ELEM_SIZES[] = {0, 1, 2, 3, 4, 7, 8, 16, 24, 40, 0, 4, 8, 1, 64, 100, 256, 1000}; // the last four are drawn less often (see gen)
+enum { N_ELEM_SIZES = 18 };
+static inline int64_t gen_zsel(Rng &r) { return r.chance(1, 12) ? 14 + (int64_t)r.below(4) : (int64_t)r.below(14); }
 static inline size_t norm_z(size_t z) { return z ? z : 1; }
 
 } // namespace sim
